@@ -9,6 +9,7 @@ static const char *BN[4] = {"b0", "b1", "b2", "b3"};
 
 // ---- scalar
 extern "C" void h_c18_scalar() {
+  verif_need_module();
   colvarvalue x1(verif_sym_double_ad("a0")), x2(verif_sym_double("b0"));
   verif_reach("scalar");
   cvm::real d = x1.dist2(x2);
@@ -28,6 +29,7 @@ extern "C" void h_c18_scalar() {
 
 // ---- 3-vector
 extern "C" void h_c18_vec3() {
+  verif_need_module();
   colvarvalue x1(cvm::rvector(verif_sym_double_ad("a0"), verif_sym_double_ad("a1"), verif_sym_double_ad("a2")));
   colvarvalue x2(cvm::rvector(verif_sym_double("b0"), verif_sym_double("b1"), verif_sym_double("b2")));
   verif_reach("vec3");
@@ -50,6 +52,7 @@ extern "C" void h_c18_vec3() {
 
 // ---- generic vector (length 3, no element types)
 extern "C" void h_c18_vector() {
+  verif_need_module();
   cvm::vector1d<cvm::real> v1(3), v2(3);
   for (int i = 0; i < 3; i++) { v1[i] = verif_sym_double_ad(AN[i]); v2[i] = verif_sym_double(BN[i]); }
   colvarvalue x1(v1, colvarvalue::type_vector), x2(v2, colvarvalue::type_vector);
@@ -71,6 +74,7 @@ extern "C" void h_c18_vector() {
 
 // ---- unit vector: dist2 is the squared angle; the reported gradient is the derivative with respect to x1
 extern "C" void h_c18_unitvec() {
+  verif_need_module();
   cvm::rvector a(verif_sym_double_ad("a0"), verif_sym_double_ad("a1"), verif_sym_double_ad("a2"));
   cvm::rvector b(verif_sym_double("b0"), verif_sym_double("b1"), verif_sym_double("b2"));
   colvarvalue x1(a, colvarvalue::type_unit3vector), x2(b, colvarvalue::type_unit3vector);
@@ -93,6 +97,7 @@ extern "C" void h_c18_unitvec() {
 }
 
 extern "C" void h_c18_unitvec_interp() {
+  verif_need_module();
   cvm::rvector a(verif_sym_double("a0"), verif_sym_double("a1"), verif_sym_double("a2"));
   cvm::rvector b(verif_sym_double("b0"), verif_sym_double("b1"), verif_sym_double("b2"));
   colvarvalue x1(a, colvarvalue::type_unit3vector), x2(b, colvarvalue::type_unit3vector);
@@ -121,6 +126,7 @@ static void quat_common(cvm::quaternion &q, cvm::quaternion &Q, bool ad) {
 }
 
 extern "C" void h_c18_quat() {
+  verif_need_module();
   cvm::quaternion q, Q; quat_common(q, Q, true);
   cvm::real c = q.q0 * Q.q0 + q.q1 * Q.q1 + q.q2 * Q.q2 + q.q3 * Q.q3;
   verif_assume(c > -1.0 && c < 1.0 && c != 0.0);      // identical / opposite quaternions and the cut locus are singular
@@ -146,6 +152,7 @@ extern "C" void h_c18_quat() {
 }
 
 extern "C" void h_c18_quat_zero() {
+  verif_need_module();
   // distance zero only for equivalent values: d == 0 implies q == +-Q (unit quaternions)
   cvm::quaternion q, Q; quat_common(q, Q, false);
   colvarvalue x1(q), x2(Q);
@@ -157,6 +164,7 @@ extern "C" void h_c18_quat_zero() {
 }
 
 extern "C" void h_c18_quat_interp() {
+  verif_need_module();
   cvm::quaternion q, Q; quat_common(q, Q, false);
   cvm::real c = q.q0 * Q.q0 + q.q1 * Q.q1 + q.q2 * Q.q2 + q.q3 * Q.q3;
   verif_assume(c > -1.0 && c < 1.0);
@@ -173,6 +181,7 @@ extern "C" void h_c18_quat_interp() {
 
 // ---- apply_constraints projects on the manifold
 extern "C" void h_c18_constraints() {
+  verif_need_module();
   cvm::rvector a(verif_sym_double("a0"), verif_sym_double("a1"), verif_sym_double("a2"));
   verif_assume(a.norm2() > 0.0);
   colvarvalue u(a, colvarvalue::type_unit3vector);
